@@ -169,7 +169,7 @@ func restartOnce(t *testing.T, rep *verifkit.Report, p flowParams, values map[st
 			bad("C03/restart-open-position", "after the restart source %s was opened at record %d, the crash image holds %d", s, at, want)
 		}
 	}
-	if openedAny && y.Hang == "" && !y.StepCapHit {
+	if openedAny && y.Hang == "" && !y.StepCapHit && completenessApplies(hp) {
 		for s, q := range pos {
 			for i := q + 1; i < p.Records; i++ {
 				if len(hp.Procs) > 0 && kindsFilter(hp, i) {
@@ -185,6 +185,25 @@ func restartOnce(t *testing.T, rep *verifkit.Report, p flowParams, values map[st
 		}
 	}
 	return out
+}
+
+// completenessApplies: the restarted (healthy) run can be expected to deliver every record after the durable position
+// only if no processor result of the scenario stops the pipeline on its own (an error the DLQ does not absorb, a reply
+// shape the engine refuses) - then the run legitimately ends at that record.
+func completenessApplies(p flowParams) bool {
+	if p.Window > 0 {
+		return false // the DLQ can refuse a rejection: the pipeline stops there
+	}
+	for _, pr := range p.Procs {
+		for _, k := range pr.Kinds {
+			switch k {
+			case "", "p", "f", "e", "2", "3", "s":
+			default:
+				return false
+			}
+		}
+	}
+	return true
 }
 
 func kindsFilter(p flowParams, idx int) bool {
